@@ -601,7 +601,30 @@ def C10(ctx):
                         # use the chain element at the level of the row; simplest stable key: root region + machine
                         out.setdefault(o, []).append(t)
             return out
+        def collapse(seq):
+            # a completion guard that did not lead to a firing may be consulted again (its atoms are frozen, so with the same
+            # answer) before anything else happens in that region: back does so once per nesting level that handled the event,
+            # back + favor_compile_time and backmp11 less often; how often a guard is asked is not observable behaviour, so
+            # repeated rounds are collapsed (guard tokens carry the values of the atoms, not of the whole expression)
+            out, seen = [], set()
+            for t in seq:
+                if t.startswith('g'):
+                    if t in seen:
+                        continue
+                    seen.add(t)
+                else:
+                    seen = set()
+                out.append(t)
+            # ... and a final round after which nothing fired is dropped altogether (back asks the submachine's guards again
+            # whenever the enclosing machine handled an event, back + favor_compile_time does not)
+            while out and out[-1].startswith('g'):
+                out.pop()
+            return out
         ps, pm = proj(toks), proj(ctx.model[i])
+        ps = {k: collapse(v) for k, v in ps.items()}
+        pm = {k: collapse(v) for k, v in pm.items()}
+        ps = {k: v for k, v in ps.items() if v}
+        pm = {k: v for k, v in pm.items() if v}
         if ps != pm:
             bad = [k for k in sorted(set(ps) | set(pm), key=str) if ps.get(k) != pm.get(k)][0]
             fail('C10', 'completion behaviours of %s differ from the model' % (bad,), ctx, i,
@@ -611,6 +634,8 @@ def C10(ctx):
             for t in tk:
                 p = parse(t)
                 if p and p[0] in ('g', 'a', 'en', 'ex', 'nt'):
+                    if p[0] == 'g' and p[3] == 'none':
+                        continue        # a consulted completion guard alone is no completion work (see collapse above)
                     if not out or out[-1] != p[3]:
                         out.append(p[3])
             return out
